@@ -264,7 +264,7 @@ def run_ssh(ctx, ncases):
     """A sample of the same cases over a full SSH session (real Transport/Channel underneath)."""
     import paramiko
     from vf import pair
-    from vf.sftpbench import DirServer
+    from vf.sftpd2 import MonDirServer as DirServer  # raw (unbuffered) served files
 
     rng = ctx.rng
     root = tempfile.mkdtemp(prefix="vf-c32s-")
